@@ -4,6 +4,7 @@ import os, subprocess, sys, shutil
 sys.path.insert(0, os.path.dirname(os.path.abspath(__file__)))
 import vdriver as vd
 std, dis, disct, tf = sys.argv[1:5]
+rel = len(sys.argv) > 5 and sys.argv[5] == "1"
 env = dict(os.environ)
 if dis == "1":
     env["CARGO_CFG_HTTPARSE_DISABLE_SIMD"] = "1"
@@ -14,6 +15,8 @@ td = os.path.join(vd.TARGET_ROOT, "lattice-replay")
 cmd = ["cargo", "check", "--offline", "--lib", "--manifest-path", os.path.join(vd.REPO, "Cargo.toml"), "--target-dir", td]
 if std == "0":
     cmd.append("--no-default-features")
+if rel:
+    cmd.append("--release")
 r = subprocess.run(cmd, env=env)
 shutil.rmtree(td, ignore_errors=True)
 sys.exit(1 if r.returncode != 0 else 0)
